@@ -50,6 +50,7 @@ def parse(path):
 REGS = {"AX", "BX", "CX", "DX", "SI", "DI", "R8", "R10", "R11", "R12", "R13"}
 BYTE_REGS = {"CL": "CX"}
 XREGS = {"X0", "X1", "X2"}
+YREGS = {"Y1", "Y2", "Y3", "Y4", "Y5", "Y6"}
 
 
 def parse_mem(op):
@@ -85,6 +86,28 @@ def instr_ast(mnem, ops):
         if i is not None:
             return ".LEAQx %s %s %s %s" % (li(d), r(b), r(i), r(o[1]))
         return ".LEAQ %s %s %s" % (li(d), r(b), r(o[1]))
+    yr = lambda x: "." + x if x in YREGS else (_ for _ in ()).throw(ValueError("yreg " + x))
+    if mnem == "VPBROADCASTB" and o[0] in XREGS:
+        return ".VPBROADCASTB %s %s" % (xr(o[0]), yr(o[1]))
+    if mnem == "VMOVDQU" and len(o) == 2 and o[1] in YREGS:
+        d, b, i = parse_mem(o[0])
+        if i is not None:
+            raise ValueError("VMOVDQU with index")
+        return ".VMOVDQU %s %s %s" % (li(d), r(b), yr(o[1]))
+    if mnem in ("VPOR", "VPAND", "VPCMPEQB") and len(o) == 3:
+        return ".%s %s %s %s" % (mnem, yr(o[0]), yr(o[1]), yr(o[2]))
+    if mnem == "VPTEST":
+        return ".VPTEST %s %s" % (yr(o[0]), yr(o[1]))
+    if mnem == "VPMOVMSKB":
+        return ".VPMOVMSKB %s %s" % (yr(o[0]), r(o[1]))
+    if mnem == "VZEROUPPER":
+        return ".VZEROUPPER"
+    if mnem == "POPCNTQ":
+        return ".POPCNTQ %s %s" % (r(o[0]), r(o[1]))
+    if mnem == "SALQ" and o[0].startswith("$"):
+        return ".SALQi %d %s" % (int(o[0][1:], 0), r(o[1]))
+    if mnem == "ORQ" and o[0] in REGS:
+        return ".ORQ %s %s" % (r(o[0]), r(o[1]))
     if mnem == "ORL" and o[0].startswith("$"):
         return ".ORLi %d %s" % (int(o[0][1:], 0), r(o[1]))
     if mnem == "MOVD" and o[0] in REGS and o[1] in XREGS:
@@ -119,7 +142,7 @@ def instr_ast(mnem, ops):
         if o[0].startswith("$"):
             return ".MOVQimm %s %s" % (li(int(o[0][1:], 0)), r(b))
         return ".MOVQst %s %s" % (r(o[0]), r(b))
-    if mnem in ("JEQ", "JZ", "JNZ", "JAE", "JMP", "JB", "JBE", "JLT", "JA", "JNE") and len(o) == 1 and re.match(r"^\w+$", o[0]):
+    if mnem in ("JEQ", "JZ", "JNZ", "JAE", "JMP", "JB", "JBE", "JLT", "JA", "JNE", "JLE") and len(o) == 1 and re.match(r"^\w+$", o[0]):
         return '.%s "%s"' % (mnem, o[0])
     if mnem == "RET":
         return ".RET"
